@@ -138,8 +138,9 @@ static void nx_choice(void)
 		 * not have touched the protected file; now the command under test */
 		char cmd[64];
 		struct vfile *f = vfs_find(target);
-		if (!(strstr(out, "[w]") && !strstr(out, "failed")))
-			fail("c03-guard", "the intermediate command %s did not succeed (output \"%s\")", matrix_pre, nv_esc(out, -1));
+		if (matrix_pre[0] == 'w' || matrix_pre[0] == '1')
+			if (!(strstr(out, "[w]") && !strstr(out, "failed")))
+				fail("c03-guard", "the intermediate command %s did not succeed (output \"%s\")", matrix_pre, nv_esc(out, -1));
 		if (!target_is(pre_target) || (f && f->exists && f->mtime != pre_target_mtime))
 			fail("c03-guard", "the intermediate command %s modified the protected file", matrix_pre);
 		nvx_exout_reset();
@@ -464,6 +465,10 @@ int main(int argc, char **argv)
 			{"edited file rewritten (newer), after w h, x", "x", 1, "change", "w h"},
 			{"edited file exists, same mtime, after w h", "w", 0, "none", "w h"},
 			{"edited file deleted meanwhile, after w h", "w", 0, "delete", "w h"},
+			/* coming back to the open buffer by name does not read the file again, so the guard must stay armed */
+			{"edited file rewritten after it was read (newer mtime), after e! f", "w", 1, "change", "e! f"},
+			{"edited file rewritten after it was read (newer mtime), after e! h and e! f", "w", 1, "change", "e! h|e! f"},
+			{"edited file exists, same mtime, after e! f", "w", 0, "none", "e! f"},
 		};
 		int m;
 		for (s = 1; s < 5; s += 3)
